@@ -1269,7 +1269,6 @@ theorem readFrames_frames (frames : List Frame) {e1 : Str} {E : List Str}
       rw [← hL, ih]
 
 theorem readText_toString (pe : PE) (h : WFpe pe = true) : readText (toString pe) = some pe := by
-  have hA := WFtextA_noAnchors pe h
   simp only [WFpe, Bool.and_eq_true, List.all_eq_true] at h
   obtain ⟨hfr, hexc⟩ := h
   obtain ⟨h1, h2, h3, h4, h5, h6⟩ := WFexc_parts hexc
@@ -1298,6 +1297,15 @@ theorem WFtext_toString (pe : PE) (h : WFpe pe = true) : WFtext (toString pe) = 
   unfold WFtext
   rw [readText_toString pe h]
   simp [h]
+
+/-! ## simple sufficient conditions -/
+
+theorem noTail_of_noQuote {s : Str} (h : ∀ c ∈ s, c ≠ '"') : noTail s = true := by
+  have := noTail_append_of_noQuote (a := s) (b := []) h rfl
+  simpa using this
+
+theorem matchFrame_none_of_head {s : Str} (h : s.head? ≠ some 'F') : matchFrame s = none :=
+  matchWith_none_of_prefix (dropPrefix?_none_of_head (p := litA) (c := 'F') rfl h)
 
 /-! ## glue used by Props -/
 
